@@ -94,7 +94,7 @@ Proof.
   - apply (MW_spawned rs sa _ _ (fun n => mk_req MApply num bad [] 0 w ecb ccb n b) HMa
              (spawned_apply sa num bad noncoro w ecb ccb g)).
     intros n. reflexivity.
-  - apply (MW_spawned rs sa _ _ (fun n => mk_req (MMap stars) 0 false els nc default_w ecb ccb n b)
+  - apply (MW_spawned rs sa _ _ (fun n => mk_req (MMap stars) 0 [] els nc default_w ecb ccb n b)
              HMa (spawned_map sa stars els nc noncoro ecb ccb g)).
     intros n. reflexivity.
   - subst c.
